@@ -3,7 +3,7 @@ from vlib import Group
 import C01 as _c01
 import C05 as _c05
 
-GROUPS = _c01.groups("C02", True)
+GROUPS = _c01.groups("C02", True, ("mov", "add", "cmp"))
 # add_bin*: location counter advance identical in every pass/configuration; data directives: advance independent of pass
 GROUPS += [g for g in _c05.GROUPS if any(k in g.name for k in ("add_bin", "parse_dc16", "parse_dc32", "parse_data_fill", "parse_resb", "parse_align_bytes"))]
 GROUPS.append(Group(name="C02/flag_protocol_all_cpus", unity="C02/u_protocol.cpp", entry="h_protocol", cpp_sources=["core/cpu_list.cpp"],
